@@ -1,5 +1,6 @@
 import Lemmas.Rev.HeadsFacts
 import Props.C02
+import Props.C16
 /-!
 # C05 — stamp moves only the branches that share lineage with the target
 
@@ -71,11 +72,11 @@ theorem stamp_fold {m : LMap} (R : List Id) (hn : R.Nodup) (fs : List Id) (hf : 
       intro x; rw [hsr.iff x]; simp
     | _ :: _ :: _, _, hl => simp at hl
 
-/-- **C05, one destination.** From rows that form an antichain, stamping a revision `d` of the
-history replaces every row in `d`'s lineage by `d` and leaves every other row untouched; every
-statement hits exactly one row; the result is an antichain again. -/
-theorem single {m : LMap} (L : Loaded m) (R : List Id) (hR : Antichain m R) (d : Id) :
-    ∃ steps tr, stampDest m (R.filter (fun x => sharesLineage m x [d] true)) (some d) = .ok steps ∧
+/-- one destination, the selected rows given as any duplicate-free list `F` of the rows in `d`'s
+lineage (inside the loop over several destinations it is a filter of the *remaining* heads) -/
+theorem single_gen {m : LMap} (L : Loaded m) (R : List Id) (hR : Antichain m R) (d : Id)
+    (F : List Id) (hfn : F.Nodup) (hfmem : ∀ x, x ∈ F ↔ x ∈ R ∧ Lineage m d x) :
+    ∃ steps tr, stampDest m F (some d) = .ok steps ∧
       runSteps m R steps = .ok tr ∧
       RowSet (tr.getLastD R) (fun x => (x ∈ R ∧ ¬ Lineage m d x) ∨ x = d) ∧
       Antichain m (tr.getLastD R) := by
@@ -84,10 +85,8 @@ theorem single {m : LMap} (L : Loaded m) (R : List Id) (hR : Antichain m R) (d :
     intro x y hx hy hr
     apply Classical.byContradiction
     intro hne; exact hR.2 x hx y hy hne hr
-  have hfmem : ∀ x, x ∈ R.filter (fun x => sharesLineage m x [d] true) ↔ x ∈ R ∧ Lineage m d x := by
-    intro x; rw [List.mem_filter, sharesLineage_iff L]
   -- it is enough to produce the right row set; the antichain property follows
-  suffices h : ∃ steps tr, stampDest m (R.filter (fun x => sharesLineage m x [d] true)) (some d) = .ok steps ∧
+  suffices h : ∃ steps tr, stampDest m F (some d) = .ok steps ∧
       runSteps m R steps = .ok tr ∧ RowSet (tr.getLastD R) (fun x => (x ∈ R ∧ ¬ Lineage m d x) ∨ x = d) by
     obtain ⟨steps, tr, h1, h2, hs⟩ := h
     refine ⟨steps, tr, h1, h2, hs, hs.nodup, ?_⟩
@@ -97,7 +96,7 @@ theorem single {m : LMap} (L : Loaded m) (R : List Id) (hR : Antichain m R) (d :
     · subst hyd; exact hxl (Or.inr hreach)
     · subst hxd; exact hyl (Or.inl hreach)
     · exact hne (hxd.trans hyd.symm)
-  by_cases hdf : d ∈ R.filter (fun x => sharesLineage m x [d] true)
+  by_cases hdf : d ∈ F
   · -- already there: nothing to do
     have hdR : d ∈ R := ((hfmem d).mp hdf).1
     refine ⟨[], [], by simp [stampDest, hdf, pure, Except.pure], by simp [runSteps], hR.1, ?_⟩
@@ -115,9 +114,8 @@ theorem single {m : LMap} (L : Loaded m) (R : List Id) (hR : Antichain m R) (d :
       · exact hx
       · rw [e]; exact hdR
   · have hdR : d ∉ R := fun h => hdf ((hfmem d).mpr ⟨h, Or.inl (Reach.refl _)⟩)
-    have hfn : (R.filter (fun x => sharesLineage m x [d] true)).Nodup := List.Pairwise.filter _ hR.1
-    have hfsub : ∀ f ∈ R.filter (fun x => sharesLineage m x [d] true), f ∈ R := fun f hf => ((hfmem f).mp hf).1
-    have hrows : ∀ R', RowSet R' (fun x => (x ∈ R ∧ x ∉ R.filter (fun x => sharesLineage m x [d] true)) ∨ x = d) →
+    have hfsub : ∀ f ∈ F, f ∈ R := fun f hf => ((hfmem f).mp hf).1
+    have hrows : ∀ R', RowSet R' (fun x => (x ∈ R ∧ x ∉ F) ∨ x = d) →
         RowSet R' (fun x => (x ∈ R ∧ ¬ Lineage m d x) ∨ x = d) := by
       intro R' hs
       refine ⟨hs.nodup, ?_⟩
@@ -129,9 +127,9 @@ theorem single {m : LMap} (L : Loaded m) (R : List Id) (hR : Antichain m R) (d :
       · rintro (⟨h1, h2⟩ | h)
         · exact Or.inl ⟨h1, fun hf => h2 ((hfmem x).mp hf).2⟩
         · exact Or.inr h
-    by_cases hdesc : (R.filter (fun x => sharesLineage m x [d] true)).any (· ∈ m.descendants [d]) = true
+    by_cases hdesc : F.any (· ∈ m.descendants [d]) = true
     · -- heads above the destination: a single downgrade-like step
-      have hnoanc : (R.filter (fun x => sharesLineage m x [d] true)).any (· ∈ m.ancestors [d]) = false := by
+      have hnoanc : F.any (· ∈ m.ancestors [d]) = false := by
         simp only [List.any_eq_false, decide_eq_true_eq]
         intro f' hf' hanc
         simp only [List.any_eq_true, decide_eq_true_eq] at hdesc
@@ -149,21 +147,21 @@ theorem single {m : LMap} (L : Loaded m) (R : List Id) (hR : Antichain m R) (d :
           have := reach_rank_lt' hrank h1 hne
           omega
         exact hdR (this ▸ hfsub f hf)
-      have hne : R.filter (fun x => sharesLineage m x [d] true) ≠ [] := by
+      have hne : F ≠ [] := by
         intro e; rw [e] at hdesc; simp at hdesc
       obtain ⟨R', st, hstep, hs⟩ := stamp_fold (m := m) R hR.1 _ hfn hne hfsub d hdR false
       refine ⟨[.stamp _ [d] false false], [R'], ?_, runSteps_single m R R' _ st hstep, ?_⟩
       · simp [stampDest, hdf, hdesc, hnoanc, pure, Except.pure]
       · simpa using hrows R' hs
-    · by_cases hanc : (R.filter (fun x => sharesLineage m x [d] true)).any (· ∈ m.ancestors [d]) = true
-      · have hne : R.filter (fun x => sharesLineage m x [d] true) ≠ [] := by
+    · by_cases hanc : F.any (· ∈ m.ancestors [d]) = true
+      · have hne : F ≠ [] := by
           intro e; rw [e] at hanc; simp at hanc
         obtain ⟨R', st, hstep, hs⟩ := stamp_fold (m := m) R hR.1 _ hfn hne hfsub d hdR true
         refine ⟨[.stamp _ [d] true false], [R'], ?_, runSteps_single m R R' _ st hstep, ?_⟩
         · simp [stampDest, hdf, hdesc, hanc, pure, Except.pure]
         · simpa using hrows R' hs
       · -- no row in the lineage: a new branch
-        have hnil : R.filter (fun x => sharesLineage m x [d] true) = [] := by
+        have hnil : F = [] := by
           apply List.eq_nil_iff_forall_not_mem.mpr
           intro f hf
           have hl := ((hfmem f).mp hf).2
@@ -192,6 +190,17 @@ theorem single {m : LMap} (L : Loaded m) (R : List Id) (hR : Antichain m R) (d :
           · rintro (⟨h, _⟩ | h)
             · exact Or.inl h
             · exact Or.inr h
+
+/-- **C05, one destination.** From rows that form an antichain, stamping a revision `d` of the
+history replaces every row in `d`'s lineage by `d` and leaves every other row untouched; every
+statement hits exactly one row; the result is an antichain again. -/
+theorem single {m : LMap} (L : Loaded m) (R : List Id) (hR : Antichain m R) (d : Id) :
+    ∃ steps tr, stampDest m (R.filter (fun x => sharesLineage m x [d] true)) (some d) = .ok steps ∧
+      runSteps m R steps = .ok tr ∧
+      RowSet (tr.getLastD R) (fun x => (x ∈ R ∧ ¬ Lineage m d x) ∨ x = d) ∧
+      Antichain m (tr.getLastD R) :=
+  single_gen L R hR d _ (List.Pairwise.filter _ hR.1)
+    (fun x => by rw [List.mem_filter, sharesLineage_iff L])
 
 /-- **Stamping `base`** deletes every selected head (for plain `base` all rows are selected):
 each statement hits one row and the table ends without them. -/
@@ -229,6 +238,336 @@ theorem base {m : LMap} (R : List Id) (hn : R.Nodup) :
   apply List.eq_nil_iff_forall_not_mem.mpr
   intro x hx
   exact ((hs.iff x).mp hx).2 ((hs.iff x).mp hx).1
+
+/-! ### several destinations (`stamp a b`, `stamp heads`): the loop of `_stamp_revs` -/
+
+theorem runSteps_append (m : LMap) : ∀ (s1 s2 : List Step) (R : List Id) (t1 t2 : List (List Id)),
+    runSteps m R s1 = .ok t1 → runSteps m (t1.getLastD R) s2 = .ok t2 →
+    runSteps m R (s1 ++ s2) = .ok (t1 ++ t2) := by
+  intro s1
+  induction s1 with
+  | nil =>
+    intro s2 R t1 t2 h1 h2
+    simp only [runSteps, Except.ok.injEq] at h1
+    subst h1
+    simpa using h2
+  | cons s rest ih =>
+    intro s2 R t1 t2 h1 h2
+    simp only [runSteps] at h1
+    cases hu : updateToStep m R s with
+    | error e => simp [hu] at h1
+    | ok pr =>
+      obtain ⟨R', st⟩ := pr
+      simp only [hu] at h1
+      cases hr : runSteps m R' rest with
+      | error e => simp [hr] at h1
+      | ok tr =>
+        simp only [hr, Except.ok.injEq] at h1
+        subst h1
+        have hl : (R' :: tr).getLastD R = tr.getLastD R' := by cases tr <;> simp [List.getLastD]
+        rw [hl] at h2
+        simp only [List.cons_append, runSteps, hu, ih s2 R' tr t2 hr h2]
+
+theorem getLastD_append' (t1 t2 : List (List Id)) (R : List Id) :
+    (t1 ++ t2).getLastD R = t2.getLastD (t1.getLastD R) := by
+  cases t2 with
+  | nil => simp
+  | cons a r => simp [List.getLastD_cons, List.getLast?_append]
+
+/-- `filter_for_lineage(targets, d)` for a full revision id `d` -/
+theorem filterForLineage_plain (m : LMap) (l : List Id) (d : Id) (hd : d ∈ m.ids) (hp : C16.Plain d) (b : Bool) :
+    filterForLineage m l d b = .ok (l.filter (fun t => sharesLineage m t [d] b)) := by
+  unfold filterForLineage resolveFuel resolveShares
+  simp [C16.resolveNumber_plain m 10 d hp, revisionForIdent_id m 10 d hd, bind, Except.bind, pure, Except.pure]
+
+/-- the destinations are pairwise outside each other's lineage (as the heads of a history are) -/
+def Unrelated (m : LMap) (ds : List Id) : Prop :=
+  ds.Nodup ∧ ∀ d ∈ ds, ∀ d' ∈ ds, d ≠ d' → ¬ Lineage m d d'
+
+/-- **C05, several destinations.** `rem` is the list of heads still to be claimed (a
+duplicate-free sub-list of the rows containing every row in the lineage of a destination).
+From an antichain, stamping pairwise unrelated revisions `ds` one after the other replaces the
+rows in the lineage of some destination by the destinations, leaves every other row untouched,
+never fails on a statement, and ends in an antichain. -/
+theorem several {m : LMap} (L : Loaded m) : ∀ (ds R rem : List Id), Antichain m R → Unrelated m ds →
+    (∀ d ∈ ds, d ∈ m.ids ∧ C16.Plain d) → rem.Nodup → (∀ x ∈ rem, x ∈ R) →
+    (∀ d ∈ ds, ∀ x ∈ R, Lineage m d x → x ∈ rem) →
+    ∃ steps tr, stampLoop m true rem (ds.map some) = .ok steps ∧ runSteps m R steps = .ok tr ∧
+      RowSet (tr.getLastD R) (fun x => (x ∈ R ∧ ∀ d ∈ ds, ¬ Lineage m d x) ∨ x ∈ ds) ∧
+      Antichain m (tr.getLastD R) := by
+  intro ds
+  induction ds with
+  | nil =>
+    intro R rem hR _ _ _ _ _
+    refine ⟨[], [], by simp [stampLoop, pure, Except.pure], by simp [runSteps], ⟨hR.1, ?_⟩, hR⟩
+    intro x; simp
+  | cons d ds ih =>
+    intro R rem hR hU hds hrn hrs hrl
+    have hdU := List.nodup_cons.mp hU.1
+    obtain ⟨hdm, hdp⟩ := hds d List.mem_cons_self
+    -- the heads this destination claims
+    have hfmem : ∀ x, x ∈ rem.filter (fun t => sharesLineage m t [d] true) ↔ x ∈ R ∧ Lineage m d x := by
+      intro x; rw [List.mem_filter, sharesLineage_iff L]
+      exact ⟨fun ⟨h1, h2⟩ => ⟨hrs x h1, h2⟩, fun ⟨h1, h2⟩ => ⟨hrl d List.mem_cons_self x h1 h2, h2⟩⟩
+    obtain ⟨s1, t1, hs1, hr1, hrow1, hanti1⟩ :=
+      single_gen L R hR d (rem.filter (fun t => sharesLineage m t [d] true)) (List.Pairwise.filter _ hrn) hfmem
+    have hU' : Unrelated m ds :=
+      ⟨hdU.2, fun a ha b hb => hU.2 a (List.mem_cons_of_mem _ ha) b (List.mem_cons_of_mem _ hb)⟩
+    have hnot : ∀ d' ∈ ds, ¬ Lineage m d' d := by
+      intro d' hd' hl
+      exact hU.2 d' (List.mem_cons_of_mem _ hd') d List.mem_cons_self (fun e => hdU.1 (e ▸ hd')) hl
+    obtain ⟨s2, t2, hs2, hr2, hrow2, hanti2⟩ := ih (t1.getLastD R)
+      (rem.filter (fun x => decide (x ∉ rem.filter (fun t => sharesLineage m t [d] true)))) hanti1 hU'
+      (fun d' hd' => hds d' (List.mem_cons_of_mem _ hd')) (List.Pairwise.filter _ hrn)
+      (by
+        intro x hx
+        obtain ⟨hx1, hx2⟩ := List.mem_filter.mp hx
+        simp only [decide_eq_true_eq] at hx2
+        exact (hrow1.iff x).mpr (Or.inl ⟨hrs x hx1, fun hl => hx2 ((hfmem x).mpr ⟨hrs x hx1, hl⟩)⟩))
+      (by
+        intro d' hd' x hx hl
+        rcases (hrow1.iff x).mp hx with ⟨hxR, hxl⟩ | hxd
+        · refine List.mem_filter.mpr ⟨hrl d' (List.mem_cons_of_mem _ hd') x hxR hl, ?_⟩
+          simp only [decide_eq_true_eq]
+          exact fun hf => hxl ((hfmem x).mp hf).2
+        · subst hxd; exact absurd hl (hnot d' hd'))
+    refine ⟨s1 ++ s2, t1 ++ t2, ?_, runSteps_append m s1 s2 R t1 t2 hr1 hr2, ?_, ?_⟩
+    · simp only [List.map_cons, stampLoop, filterForLineage_plain m rem d hdm hdp true, bind, Except.bind, pure,
+        Except.pure, hs1, hs2]
+    · rw [getLastD_append']
+      refine ⟨hrow2.nodup, ?_⟩
+      intro x; rw [hrow2.iff x, hrow1.iff x]
+      constructor
+      · rintro (⟨⟨hxR, hxl⟩ | hxd, hall⟩ | hxds)
+        · left; refine ⟨hxR, ?_⟩
+          intro d' hd'
+          rcases List.mem_cons.mp hd' with e | h
+          · subst e; exact hxl
+          · exact hall d' h
+        · right; rw [hxd]; exact List.mem_cons_self
+        · right; exact List.mem_cons_of_mem _ hxds
+      · rintro (⟨hxR, hall⟩ | hxds)
+        · left; exact ⟨Or.inl ⟨hxR, hall d List.mem_cons_self⟩, fun d' hd' => hall d' (List.mem_cons_of_mem _ hd')⟩
+        · rcases List.mem_cons.mp hxds with e | h
+          · left; subst e; exact ⟨Or.inr rfl, hnot⟩
+          · right; exact h
+    · rw [getLastD_append']; exact hanti2
+
+/-! ### end to end: `command.stamp` (`_stamp_revs` then the version-table bookkeeping) -/
+
+/-- every identifier in the list is the full id of a revision (and not a symbolic name) -/
+def FullIds (m : LMap) (l : List Id) : Prop := ∀ i ∈ l, i ∈ m.ids ∧ C16.Plain i ∧ i ≠ ""
+
+theorem dedupe_of_nodup : ∀ (l : List String), l.Nodup → dedupe l = l
+  | [], _ => rfl
+  | x :: r, h => by
+    have h' := List.nodup_cons.mp h
+    simp only [dedupe, dedupe_of_nodup r h'.2]
+    congr 1
+    apply List.filter_eq_self.mpr
+    intro a ha
+    simp only [bne_iff_ne, ne_eq]
+    exact fun e => h'.1 (e ▸ ha)
+
+theorem mapM_getRevisions_full (m : LMap) : ∀ (l : List Id), FullIds m l →
+    l.mapM (getRevisions m) = .ok (l.map (fun i => [some i]))
+  | [], _ => rfl
+  | a :: r, h => by
+    have ha := h a List.mem_cons_self
+    simp only [List.mapM_cons, bind, Except.bind, pure, Except.pure, (C16.full_id m a ha.1 ha.2.1).1,
+      mapM_getRevisions_full m r (fun i hi => h i (List.mem_cons_of_mem _ hi)), List.map_cons]
+
+theorem flatten_singletons {α} : ∀ (l : List α), (l.map (fun i => [some i])).flatten = l.map some
+  | [] => rfl
+  | a :: r => by simp [flatten_singletons r]
+
+theorem getRevisionsMany_full (m : LMap) (l : List Id) (h : FullIds m l) :
+    getRevisionsMany m l = .ok (l.map some) := by
+  unfold getRevisionsMany
+  simp only [mapM_getRevisions_full m l h, bind, Except.bind, pure, Except.pure, flatten_singletons]
+
+theorem filterMap_id_map_some {α} : ∀ (l : List α), (l.map some).filterMap id = l
+  | [] => rfl
+  | a :: r => by simp [filterMap_id_map_some r]
+
+theorem mapM_filter_full (m : LMap) (R : List Id) : ∀ (ds : List Id), FullIds m ds →
+    ds.mapM (fun t => if t.isEmpty = true then (Except.ok [] : Except Err (List Id)) else filterForLineage m R t true) =
+      .ok (ds.map (fun d => R.filter (fun t => sharesLineage m t [d] true)))
+  | [], _ => rfl
+  | d :: r, h => by
+    obtain ⟨h1, h2, h3⟩ := h d List.mem_cons_self
+    have he : d.isEmpty = false := by
+      cases hb : d.isEmpty with
+      | false => rfl
+      | true => exact absurd (String.isEmpty_iff.mp hb) h3
+    have ih := mapM_filter_full m R r (fun i hi => h i (List.mem_cons_of_mem _ hi))
+    simp only [List.mapM_cons, he, Bool.false_eq_true, if_false, filterForLineage_plain m R d h1 h2 true, bind,
+      Except.bind, pure, Except.pure, List.map_cons, ih]
+
+/-- `_stamp_revs` for destinations given as full revision ids -/
+theorem stampRevs_ids (m : LMap) (ds R : List Id) (hne : ds ≠ []) (hds : FullIds m ds) (hR : FullIds m R) :
+    stampRevs m ds R = stampLoop m (decide (ds.length > 1))
+      (dedupe (ds.map (fun d => R.filter (fun t => sharesLineage m t [d] true))).flatten) (ds.map some) := by
+  unfold stampRevs
+  have he : ds.isEmpty = false := by cases ds <;> simp_all
+  have he' : (ds.map some).isEmpty = false := by cases ds <;> simp_all
+  simp only [getRevisionsMany_full m R hR, getRevisionsMany_full m ds hds, bind, Except.bind, filterMap_id_map_some,
+    he, he', Bool.false_eq_true, if_false, List.length_map, pure, Except.pure]
+  rw [mapM_filter_full m R ds hds]
+
+/-- **`stamp d`, the command.** From an antichain of rows, `stamp d` for a revision id `d` ends
+with exactly `(rows \ lineage(d)) ∪ {d}`, an antichain. -/
+theorem stamp_one {m : LMap} (L : Loaded m) (R : List Id) (hR : Antichain m R) (hRf : FullIds m R)
+    (d : Id) (hd : FullIds m [d]) :
+    ∃ R', stamp m [d] R = .ok R' ∧ RowSet R' (fun x => (x ∈ R ∧ ¬ Lineage m d x) ∨ x = d) ∧ Antichain m R' := by
+  obtain ⟨steps, tr, h1, h2, h3, h4⟩ := single L R hR d
+  refine ⟨tr.getLastD R, ?_, h3, h4⟩
+  unfold stamp
+  rw [stampRevs_ids m [d] R (by simp) hd hRf]
+  have hnd : (R.filter (fun t => sharesLineage m t [d] true)).Nodup := List.Pairwise.filter _ hR.1
+  simp [stampLoop, dedupe_of_nodup _ hnd, h1, h2, bind, Except.bind, pure, Except.pure]
+
+/-- **`stamp d1 d2 …`, the command**, for pairwise unrelated revision ids. -/
+theorem stamp_several {m : LMap} (L : Loaded m) (R : List Id) (hR : Antichain m R) (hRf : FullIds m R)
+    (ds : List Id) (hlen : ds.length > 1) (hds : FullIds m ds) (hU : Unrelated m ds) :
+    ∃ R', stamp m ds R = .ok R' ∧
+      RowSet R' (fun x => (x ∈ R ∧ ∀ d ∈ ds, ¬ Lineage m d x) ∨ x ∈ ds) ∧ Antichain m R' := by
+  have hne : ds ≠ [] := by intro e; rw [e] at hlen; simp at hlen
+  have hmem : ∀ x, x ∈ dedupe (ds.map (fun d => R.filter (fun t => sharesLineage m t [d] true))).flatten ↔
+      x ∈ R ∧ ∃ d ∈ ds, Lineage m d x := by
+    intro x
+    rw [mem_dedupe, List.mem_flatten]
+    constructor
+    · rintro ⟨l, hl, hx⟩
+      obtain ⟨d, hd, rfl⟩ := List.mem_map.mp hl
+      rw [List.mem_filter, sharesLineage_iff L] at hx
+      exact ⟨hx.1, d, hd, hx.2⟩
+    · rintro ⟨hx, d, hd, hl⟩
+      exact ⟨_, List.mem_map.mpr ⟨d, hd, rfl⟩, List.mem_filter.mpr ⟨hx, (sharesLineage_iff L d x).mpr hl⟩⟩
+  obtain ⟨steps, tr, h1, h2, h3, h4⟩ := several L ds R _ hR hU (fun d hd => ⟨(hds d hd).1, (hds d hd).2.1⟩)
+    (dedupe_nodup _) (fun x hx => ((hmem x).mp hx).1) (fun d hd x hx hl => (hmem x).mpr ⟨hx, d, hd, hl⟩)
+  refine ⟨tr.getLastD R, ?_, h3, h4⟩
+  unfold stamp
+  rw [stampRevs_ids m ds R hne hds hRf]
+  simp [hlen, h1, h2, bind, Except.bind, pure, Except.pure]
+
+theorem filterForLineage_base (m : LMap) (l : List Id) (b : Bool) : filterForLineage m l "base" b = .ok l := by
+  unfold filterForLineage resolveFuel resolveShares resolveRevisionNumber
+  simp [splitFirstAt_noat "base" (by decide), bind, Except.bind, pure, Except.pure, sharesLineage]
+
+/-- **`stamp base`, the command**: the version table ends empty. -/
+theorem stamp_base (m : LMap) (R : List Id) (hn : R.Nodup) (hRf : FullIds m R) :
+    stamp m ["base"] R = .ok [] := by
+  obtain ⟨steps, tr, h1, h2, h3⟩ := base (m := m) R hn
+  unfold stamp stampRevs
+  have hb : getRevisionsMany m ["base"] = .ok [] := by
+    unfold getRevisionsMany
+    simp [C16.symbolic_base m, bind, Except.bind, pure, Except.pure]
+  simp [getRevisionsMany_full m R hRf, hb, filterForLineage_base, dedupe_of_nodup R hn,
+    stampLoop, h1, h2, bind, Except.bind, pure, Except.pure]
+  simpa using h3
+
+theorem mapM_revisionForIdent_ids (m : LMap) (n : Nat) : ∀ (l : List Id), (∀ x ∈ l, x ∈ m.ids) →
+    l.mapM (fun i => revisionForIdent m (n + 1) i none) = .ok (l.map some)
+  | [], _ => rfl
+  | a :: r, h => by
+    simp only [List.mapM_cons, bind, Except.bind, pure, Except.pure, revisionForIdent_id m n a (h a List.mem_cons_self),
+      mapM_revisionForIdent_ids m n r (fun x hx => h x (List.mem_cons_of_mem _ hx)), List.map_cons]
+
+theorem resolveShares_heads (m : LMap) (hsub : ∀ x ∈ m.realHeads, x ∈ m.ids) :
+    resolveShares m 12 "heads" = .ok m.realHeads := by
+  unfold resolveShares resolveRevisionNumber
+  simp only [splitFirstAt_noat "heads" (by decide), bind, Except.bind, pure, Except.pure, beq_self_eq_true, if_true,
+    List.nil_append, mapM_revisionForIdent_ids m 10 m.realHeads hsub, filterMap_id_map_some]
+
+/-- every row lies below a head, so `filter_for_lineage(rows, "heads")` keeps every row -/
+theorem filterForLineage_heads {m : LMap} (L : Loaded m)
+    (hrh : ∀ x, x ∈ m.realHeads ↔ x ∈ m.ids ∧ ∀ c ∈ m.ids, x ∉ m.allDownOf c)
+    (R : List Id) (hR : ∀ x ∈ R, x ∈ m.ids) : filterForLineage m R "heads" true = .ok R := by
+  unfold filterForLineage resolveFuel
+  rw [resolveShares_heads m (fun x hx => ((hrh x).mp hx).1)]
+  simp only [bind, Except.bind, pure, Except.pure, Except.ok.injEq]
+  apply List.filter_eq_self.mpr
+  intro x hx
+  obtain ⟨hh, hmax, hreach⟩ := exists_max_above L m.ids x (hR x hx)
+  have hhm : hh ∈ m.realHeads := (hrh hh).mpr hmax
+  unfold sharesLineage
+  have hne : m.realHeads.isEmpty = false := by cases hq : m.realHeads <;> simp_all
+  simp only [hne, Bool.false_eq_true, if_false, if_true, List.any_eq_true, Bool.or_eq_true, decide_eq_true_eq]
+  exact ⟨hh, hhm, Or.inl ((mem_desc_single L x hh).mpr hreach)⟩
+
+/-- **`stamp heads`, the command**: from any antichain of rows the version table ends holding
+exactly the heads of the history. -/
+theorem stamp_heads {h : Hist} {o : LoadOpts} {m : LMap} (hl : load h o = .ok m)
+    (hu : (h.map (·.id)).Nodup) (hd : ∀ r ∈ h, ∀ d ∈ r.down, d ∈ h.map (·.id))
+    (hplain : FullIds m m.ids) (R : List Id) (hR : Antichain m R) (hsub : ∀ x ∈ R, x ∈ m.ids) :
+    ∃ R', stamp m ["heads"] R = .ok R' ∧ RowSet R' (fun x => x ∈ m.realHeads) ∧ Antichain m R' := by
+  have L := loaded_of_load hl hu hd
+  have hrh := (C15.heads_bases hl hu hd).2.1
+  have hRf : FullIds m R := fun i hi => hplain i (hsub i hi)
+  have hHn : m.realHeads.Nodup := by rw [(load_heads hl).2.1]; exact List.Pairwise.filter _ L.ids_nodup
+  have hHf : FullIds m m.realHeads := fun i hi => hplain i ((hrh i).mp hi).1
+  have hcover : ∀ x ∈ R, ∃ hh ∈ m.realHeads, Lineage m hh x := by
+    intro x hx
+    obtain ⟨hh, hmax, hreach⟩ := exists_max_above L m.ids x (hsub x hx)
+    exact ⟨hh, (hrh hh).mpr hmax, Or.inl hreach⟩
+  have hUn : Unrelated m m.realHeads := by
+    refine ⟨hHn, ?_⟩
+    -- a head is nobody's prerequisite, so no other revision reaches down to it
+    have key : ∀ a ∈ m.realHeads, ∀ b ∈ m.realHeads, a ≠ b → ¬ Reach m.allDownOf a b := by
+      intro a ha b hb hne hr
+      obtain ⟨c, hac, hbc⟩ := reach_last_edge hr hne
+      have hcm : c ∈ m.ids := closedA_reach (A := m.ids) (fun x _ p hp => L.refs_closed x p hp) ((hrh a).mp ha).1 hac
+      exact ((hrh b).mp hb).2 c hcm hbc
+    intro a ha b hb hne
+    rintro (hl' | hl')
+    · exact key a ha b hb hne hl'
+    · exact key b hb a ha (Ne.symm hne) hl'
+  have hrevs : stampRevs m ["heads"] R = stampLoop m (decide (m.realHeads.length > 1)) R
+      (if (m.realHeads.map some).isEmpty then [none] else m.realHeads.map some) := by
+    unfold stampRevs
+    have hg : getRevisionsMany m ["heads"] = .ok (m.realHeads.map some) := by
+      unfold getRevisionsMany
+      simp [C16.symbolic_heads hl, bind, Except.bind, pure, Except.pure]
+    have he : ("heads" : String).isEmpty = false := by decide
+    simp only [getRevisionsMany_full m R hRf, hg, bind, Except.bind, filterMap_id_map_some, List.isEmpty_cons,
+      Bool.false_eq_true, if_false, List.mapM_cons, List.mapM_nil, he, filterForLineage_heads L hrh R hsub, pure,
+      Except.pure, List.flatten_cons, List.flatten_nil, List.append_nil, dedupe_of_nodup R hR.1]
+    congr 1
+    cases m.realHeads <;> simp
+  unfold stamp
+  rw [hrevs]
+  match hq : m.realHeads, hUn, hHf, hcover with
+  | [], _, _, hcover =>
+    have hRe : R = [] := by
+      apply List.eq_nil_iff_forall_not_mem.mpr
+      intro x hx; obtain ⟨hh, hm, _⟩ := hcover x hx; simp at hm
+    subst hRe
+    refine ⟨[], by simp [stampLoop, stampDest, runSteps, bind, Except.bind, pure, Except.pure], ⟨List.nodup_nil, by simp⟩, hR⟩
+  | [hh], _, _, hcover =>
+    have hF : ∀ x, x ∈ R ↔ x ∈ R ∧ Lineage m hh x := by
+      intro x
+      refine ⟨fun hx => ⟨hx, ?_⟩, And.left⟩
+      obtain ⟨h', hm, hl'⟩ := hcover x hx
+      simp only [List.mem_singleton] at hm
+      exact hm ▸ hl'
+    obtain ⟨steps, tr, h1, h2, h3, h4⟩ := single_gen L R hR hh R hR.1 hF
+    refine ⟨tr.getLastD R, by simp [stampLoop, h1, h2, bind, Except.bind, pure, Except.pure], ⟨h3.nodup, ?_⟩, h4⟩
+    intro x; rw [h3.iff x]
+    simp only [List.mem_singleton]
+    exact ⟨fun hx => hx.elim (fun ⟨hxR, hn⟩ => absurd ((hF x).mp hxR).2 hn) id, Or.inr⟩
+  | a :: b :: r, hUn, hHf, hcover =>
+    obtain ⟨steps, tr, h1, h2, h3, h4⟩ := several L (a :: b :: r) R R hR hUn
+      (fun d hd => ⟨(hHf d hd).1, (hHf d hd).2.1⟩) hR.1 (fun x hx => hx) (fun _ _ x hx _ => hx)
+    simp only [List.map_cons] at h1
+    refine ⟨tr.getLastD R, by simp [h1, h2, bind, Except.bind, pure, Except.pure], ⟨h3.nodup, ?_⟩, h4⟩
+    intro x; rw [h3.iff x]
+    constructor
+    · rintro (⟨hxR, hn⟩ | hx)
+      · obtain ⟨h', hm, hl'⟩ := hcover x hxR
+        exact absurd hl' (hn h' hm)
+      · exact hx
+    · exact Or.inr
 
 /-! ### non-vacuity: the history of the repaired defect F4 (`a, b; c <- a`, rows `{a, b}`) -/
 
